@@ -130,8 +130,27 @@ func c15(ctx *Ctx) (*Outcome, error) {
 		g := sg.NewGen(r, sg.Opts{MaxDepth: 2, NoFormats: true, IntLimits: true, Hazard: hazard, PNullable: 0.3, PDefault: 0.15,
 			W: map[string]float64{"integer": 14, "number": 0.5, "string": 0.5, "enum": 1.5, "ref": 3, "array": 1.5, "untyped": 0.2, "compose": 0, "map": 0.2}})
 		root := g.Root()
+		if i%4 == 1 {
+			// OpenAPI-style width annotations on integers: "format" says nothing about which numbers are valid
+			root.Walk(func(x *sg.Schema) {
+				if t, _, ok := x.NonNullType(); ok && t == "integer" && x.Ref == "" && !x.HasEnum && r.Chance(0.5) {
+					x.Format = sg.PickOf(r, []string{"int32", "int64", "uint8", "int16", "uint32", "uint64", "byte", "int8"})
+				}
+			})
+		}
 		off := &sem.Case{Root: root, Sig: root.Sig()}
 		off.Pair = &sem.Case{Root: root, Sig: root.Sig(), Args: []string{"--min-sized-ints"}}
+		cases = append(cases, off)
+	}
+	for i := 0; i < 54; i++ {
+		off := intFormatCase(i)
+		off.Pair = &sem.Case{Root: off.Root, Sig: off.Sig, Args: []string{"--min-sized-ints"}}
+		cases = append(cases, off)
+	}
+	for i := 0; i < 72; i++ {
+		// bounds that meet in one point or in none
+		off := emptyIntervalCase(i)
+		off.Pair = &sem.Case{Root: off.Root, Sig: off.Sig, Args: []string{"--min-sized-ints"}}
 		cases = append(cases, off)
 	}
 	// integers whose every stated bound coincides with a limit of the chosen type (inclusive form, draft-04 boolean
